@@ -25,9 +25,12 @@ scheduler: `scheduling.newPodRequirements` sorts a pod's preferred node-affinity
 `SimulateScheduling` passed the Candidates' own pod objects (shared by all simulations of a disruption decision).  That
 defect was found by `c18.simulate` (corpus/c18.simulate/001, 002) and is repaired in /repo (`SimulateScheduling` deep-copies
 the candidates' pods; known_findings.json `fixed`).  What remains in the allowlist's separate class `leak` is pinned by
-`fact_sim_known_leaks`: writes to the scheduler's own copies and to the provisioner's cached virtual pods (found by
-reading only, not exercised dynamically; the full statement would be `leakSyms .sim = []`).  Everything else is
-confined: `fact_sim_writes_allowed`.
+`fact_sim_known_leaks`: writes to the scheduler's own copies (confined) and to the provisioner's cached CapacityBuffer
+virtual pods — at the pinned commit NOT confined: the same two write sites reached the pod objects of the long-lived
+`virtualpods.Cache`, which `Provisioner.GetPendingPods` handed to every simulation and provisioning pass uncopied.  Found by
+reading the table, then exercised dynamically and confirmed on the real code (corpus/c18.simulate/007, 008,
+c18.provision/003); repaired in /repo by fix f11624f42 (`GetPendingPods` deep-copies the cached pods; known_findings.json
+`fixed`), under which the two rows disappear.  Everything else is confined: `fact_sim_writes_allowed`.
 -/
 import Karp.Proofs.EffectsLemmas
 import Karp.Model.EffectFacts
@@ -85,20 +88,35 @@ theorem fact_footprint_symbols :
      "state.Cluster.podsSchedulableTimes", "state.Cluster.podsSchedulingAttempted"] := by
   set_option maxRecDepth 8192 in decide
 
+/-- the write-effect rows of the recorded findings C18-virtual-pods-preferences-sorted / C18-virtual-pods-default-spread-stamped
+    (known_findings.json): the in-place sort in `scheduling.newPodRequirements` and the stamping in `Inject` reach, through
+    root 2 `provisioner`, the pod objects of the provisioner's long-lived `virtualpods.Cache` (`GetPendingPods` appends
+    what `Cache.GetAll` returns, uncopied) -/
+def virtualPodLeaks : List (Nat × Nat × Nat) :=
+  [(2, C18Effects.S.«provisioner», C18Effects.S.«scheduling.newPodRequirements»),
+   (2, C18Effects.S.«provisioner», C18Effects.S.«provisioning/scheduling.DefaultTopologySpreadInjector.Inject»)]
+
 /-- What the static analysis still sees after the repair of C18-sim-mutates-candidate-pods (`SimulateScheduling` now
     hands the scheduler deep copies of the candidates' pods, so the `candidates` rows are gone): the in-place sort of a
     pod's preferred node-affinity terms in `scheduling.newPodRequirements` and the stamping of default spread constraints
-    in `Inject` reach only the scheduler's own queue (root 0), pods seen through library callbacks (roots 1, 3: the copies
-    made through `lo.Map`) and the cached virtual pods of the provisioner (root 2 `provisioner`, CapacityBuffer pods:
-    found by reading only, not exercised dynamically).  A new write to an object shared with the caller changes this
-    list and breaks the theorem. -/
+    in `Inject` reach the scheduler's own queue (root 0) and pods seen through library callbacks (roots 1, 3: the copies
+    made through `lo.Map`) — confined — and, at the pinned commit, the cached virtual pods of the provisioner
+    (`virtualPodLeaks`): NOT confined.  That part was first found by reading the table only; `c18.simulate` /
+    `c18.simdecide` / `c18.provision` now exercise it with real CapacityBuffer caches and confirm it on the real code
+    (corpus/c18.simulate/007, 008, corpus/c18.provision/003; observable consequence in
+    harness/internal/c18/consequence_test.go).
+
+    Full statement (what the property needs), proved: the confined rows are exactly these four and no write reaches the
+    pod objects of the virtual-pod cache (since fix f11624f42 `GetPendingPods` hands out deep copies: the two rows of the
+    former findings moved to root 1 `lo.Map`).  A new write to an object shared with the caller changes the list and
+    breaks the theorem. -/
 theorem fact_sim_known_leaks :
-    leakSyms .sim = [(0, C18Effects.S.«provisioning/scheduling.Queue», C18Effects.S.«scheduling.newPodRequirements»),
-                     (3, C18Effects.S.«*k8s.io/api/core/v1.Pod», C18Effects.S.«scheduling.newPodRequirements»),
-                     (1, C18Effects.S.«github.com/samber/lo.Map», C18Effects.S.«scheduling.newPodRequirements»),
-                     (1, C18Effects.S.«github.com/samber/lo.Map», C18Effects.S.«provisioning/scheduling.DefaultTopologySpreadInjector.Inject»),
-                     (2, C18Effects.S.«provisioner», C18Effects.S.«scheduling.newPodRequirements»),
-                     (2, C18Effects.S.«provisioner», C18Effects.S.«provisioning/scheduling.DefaultTopologySpreadInjector.Inject»)] := by
+    (leakSyms .sim).filter (fun r => !virtualPodLeaks.contains r) =
+      [(0, C18Effects.S.«provisioning/scheduling.Queue», C18Effects.S.«scheduling.newPodRequirements»),
+       (3, C18Effects.S.«*k8s.io/api/core/v1.Pod», C18Effects.S.«scheduling.newPodRequirements»),
+       (1, C18Effects.S.«github.com/samber/lo.Map», C18Effects.S.«scheduling.newPodRequirements»),
+       (1, C18Effects.S.«github.com/samber/lo.Map», C18Effects.S.«provisioning/scheduling.DefaultTopologySpreadInjector.Inject»)] ∧
+    (leakSyms .sim).filter (fun r => virtualPodLeaks.contains r) = [] := by
   set_option maxRecDepth 8192 in decide
 
 /-- `C18_deepcopy_complete`: the generated deep copies start from the shallow `*out = *in` and treat every
